@@ -51,8 +51,13 @@ func (c split) Recv() ([]byte, error) {
 			continue // incomplete line
 		}
 		line := buf.Bytes()
-		if n := len(line) - 1; n >= 0 {
-			return line[:n], err
+		if err == nil {
+			return line[:len(line)-1], nil // complete: strip the split byte
+		} else if len(line) != 0 {
+			// The stream ended (or failed) in the middle of a record. There is
+			// no split byte to strip: report what was read, unshortened,
+			// together with the error.
+			return line, err
 		}
 		return nil, err
 	}
